@@ -47,6 +47,26 @@ fn main() {
         }
         return;
     }
+    if args[2] == "--artifact" {
+        // frv <ID> --artifact <fuzz_search|fuzz_diff|fuzz_compile> <file>: re-check a libFuzzer artifact in-process
+        let data = std::fs::read(&args[4]).expect("read artifact");
+        let found = match args[3].as_str() {
+            "fuzz_search" => frv::fuzzdec::run_search(&data),
+            "fuzz_diff" => frv::fuzzdec::run_diff(&data),
+            _ => {
+                match std::str::from_utf8(&data).map(frv::props::c06::check_compile) {
+                    Ok(Err(f)) => println!("VIOLATING input={:?} kind={} expected={} actual={}", String::from_utf8_lossy(&data), f.kind, f.expected, f.actual),
+                    _ => println!("no violation on this input"),
+                }
+                return;
+            }
+        };
+        match found {
+            Some(f) => println!("VIOLATING {}", frv::fuzzdec::describe(&f)),
+            None => println!("no violation on this input"),
+        }
+        return;
+    }
     if args[2] == "--one" {
         props::c06::one(args.get(3).map(|s| s.as_str()).unwrap_or(""));
         return;
@@ -136,7 +156,7 @@ fn main() {
     }
 
     // 2. saved regression inputs
-    let rdir = format!("{}/replays/{}", VERIF_DIR, prop);
+    let rdir = format!("{}/replays/{}", verif_dir(), prop);
     let mut nreplay = 0;
     if let Ok(rd) = std::fs::read_dir(&rdir) {
         let mut files: Vec<_> = rd.filter_map(|e| e.ok()).map(|e| e.path()).filter(|p| p.extension().map_or(false, |x| x == "json")).collect();
